@@ -148,11 +148,11 @@ class Request:
         elif fault == "bad_leaf":
             outcome = ("value", BAD)
         else:
-            outcome = ("value", self.deliver_value(item_t, item, ipath))
+            outcome = ("lazy", lambda: self.deliver_value(item_t, item, ipath))
         if ip.delivery == "sync" or self.force_sync:
-            if outcome[0] == "raise":  # only possible when forced sync
-                return outcome[1]  # an Exception instance fails the same position
-            return outcome[1]
+            if outcome[0] == "lazy":
+                return outcome[1]()
+            return outcome[1]  # for "raise": an Exception instance fails the same position
         return self.ext("item" + pstr(ipath), outcome, kind="item", pos=ipath).fut
 
     def deliver_list(self, item_t, values, path):
@@ -262,7 +262,8 @@ class Request:
             outcome = ("value", 12345)
         else:
             v = self.world.data.value(t, source["__oid"], fname, args)
-            outcome = ("value", self.deliver_value(t, v, path))
+            # built at delivery time: awaitable items / sources inside must not exist earlier
+            outcome = ("lazy", lambda: self.deliver_value(t, v, path))
         delivery = "sync" if self.force_sync else fp.delivery
         hanging = fault == "hang"
         if delivery == "sync" and fault in ("raise", "ret_exc"):
@@ -270,6 +271,8 @@ class Request:
         if delivery == "sync":
             if outcome[0] == "raise":
                 raise outcome[1]
+            if outcome[0] == "lazy":
+                return outcome[1]()
             return outcome[1]
         label = pstr(path) + (f"~{n}" if n else "")
         if delivery == "future":
@@ -286,6 +289,8 @@ class Request:
         try:
             if outcome[0] == "raise":
                 raise outcome[1]
+            if outcome[0] == "lazy":
+                return outcome[1]()
             return outcome[1]
         finally:
             self.active -= 1
